@@ -3,10 +3,13 @@
    PROVED here, between executable models each tied to the code by correspondence:
    clustering_coef / transitivity / degrees / strengths (Model/Clustering.v), distance_wei/distance_bin and
    efficiency_wei/efficiency_bin global (Model/Distance.v, C03's models) and local (Model/EfficiencyLocal.v),
+   betweenness_wei/bin and edge_betweenness_wei/bin (Model/Between.v, C08's models: re-export of C08's theorem),
    assortativity_wei/assortativity_bin (Model/Assortativity.v), and the "ignores weights" clause for degrees_*,
    assortativity_bin, density_*, jdegree, edge_nei_overlap_* (Model/IgnoreWeights.v), findwalks, reachdist,
-   distance_bin, efficiency_bin.  NOT proved here: betweenness_wei/bin and edge_betweenness_wei/bin
-   (models belong to C08; differential test only, harness/c10.py); findpaths raises on every call.
+   distance_bin, efficiency_bin.  Every pair named in the property text is a theorem; findpaths raises on every call.
+   SELF-CONNECTIONS: the pairs clustering_coef_wu/bu and bd/bu carry the hypothesis [nodiag]; it is necessary —
+   C10_cc_wu_bu_selfloop_refuted / C10_cc_bd_bu_selfloop_refuted (Model/ClusteringInf.v makes the code's
+   inf visible); every other pair is proved for any diagonal.
    Only statements; every proof is `exact <lemma of Proofs/ClusteringReduce.v / Proofs/Reduce*.v>`.
    [cbrt] is any function returning a cube root of the matrix entries (cbrt_ok); the extracted model's
    cbrt_exact meets this on every 0/1 matrix (C10_cbrt_exact_ok_binary). *)
@@ -16,6 +19,8 @@ From BCT Require Import Base.Mat Base.SumQ Model.Threshold Model.Clustering
 From BCT Require Model.Distance Model.EfficiencyLocal Model.Assortativity Model.IgnoreWeights Model.Walks
   Proofs.DistanceBase Proofs.ReduceDistance Proofs.ReduceEfficiencyLocal Proofs.ReduceAssortativity
   Proofs.ReduceTotal Proofs.ReduceIgnore.
+From BCT Require Model.ClusteringInf Proofs.ReduceSelfloop Proofs.ReduceElocDiv Proofs.ReduceBinFirst.
+From BCT Require Model.Between Proofs.BetweenPow.
 Import ListNotations.
 Open Scope Q_scope.
 
@@ -146,6 +151,145 @@ Proof.
   intros n A. exact (conj (distance_bin_ignores_weights n A) (efficiency_bin_ignores_weights n A)).
 Qed.
 
+(* ---- centrality.py: betweenness_wei = betweenness_bin, edge_betweenness_wei = edge_betweenness_bin on 0/1 input ----
+   the models are C08's (Model/Between.v, integer lengths; tied to the code by C08's correspondence); both routines
+   return and the node vectors / the edge matrix agree entrywise.  Re-export of C08_wei_eq_bin_on_binary. *)
+Theorem C10_betweenness_wei_bin_eq_bin : forall n G, Model.Between.binary n G ->
+  exists BCw BCb, Model.Between.betweenness_wei n G = Some BCw /\ Model.Between.betweenness_bin n G = Some BCb /\
+    forall v, (v < n)%nat -> BCw v == BCb v.
+Proof. exact (fun n G H => proj1 (Proofs.BetweenPow.wei_eq_bin_on_binary n G H)). Qed.
+Theorem C10_edge_betweenness_wei_bin_eq_bin : forall n G, Model.Between.binary n G ->
+  exists Ew Bw Eb Bb, Model.Between.edge_betweenness_wei n G = Some (Ew, Bw) /\
+    Model.Between.edge_betweenness_bin n G = Some (Eb, Bb) /\
+    (forall v, (v < n)%nat -> Bw v == Bb v) /\
+    (forall x y, (x < n)%nat -> (y < n)%nat -> Ew x y == Eb x y).
+Proof. exact (fun n G H => proj2 (Proofs.BetweenPow.wei_eq_bin_on_binary n G H)). Qed.
+
+(* ---- self-connections (the property text says "a matrix whose entries are all 0 or 1": the diagonal is not excluded) ----
+   Model/ClusteringInf.v: clustering_coef_bd / _wd / _wu with the last statement `C = cyc3 / CYC3` returning
+   option Q, None = the float inf of a nonzero cyc3 over a vanishing K(K-1) [- 2 diag(A^2)]  (Model/Clustering.v
+   writes the quotient with Q's total division, harmless with an empty diagonal only). *)
+Import Model.ClusteringInf Proofs.ReduceSelfloop.
+
+(* a finite value of the visible routine IS the value of the routine the other theorems speak about; with an
+   empty diagonal no routine returns inf on a 0/1 matrix *)
+Theorem C10_cc_visible_quotient :
+  (forall cbrt n W i q,
+     (cc_bd_o n W i = Some q -> q == cc_bd n W i) /\
+     (cc_wd_o cbrt n W i = Some q -> q == cc_wd cbrt n W i) /\
+     (cc_wu_o cbrt n W i = Some q -> q == cc_wu cbrt n W i)) /\
+  (forall cbrt n A i, cbrt_ok cbrt n A -> binary n A -> nodiag n A -> (i < n)%nat ->
+     cc_bd_o n A i <> None /\ cc_wd_o cbrt n A i <> None /\ (symmetric n A -> cc_wu_o cbrt n A i <> None)).
+Proof. exact (conj cc_o_sound cc_o_nodiag_finite). Qed.
+
+(* ANY diagonal: wd = bd on 0/1 input and wd = wu on symmetric input agree including the infinities; wu / bd
+   against bu on symmetric 0/1 input: every finite value agrees, and an inf appears only at a node with fewer than
+   two neighbours (itself included when it has a self-connection) carrying a closed 3-walk — there bu returns 0 *)
+Theorem C10_cc_any_diagonal :
+  (forall cbrt n A i, cbrt_ok cbrt n A -> binary n A -> (i < n)%nat -> oeq (cc_wd_o cbrt n A i) (cc_bd_o n A i)) /\
+  (forall cbrt n W i, cbrt_ok cbrt n W -> symmetric n W -> (i < n)%nat -> oeq (cc_wd_o cbrt n W i) (cc_wu_o cbrt n W i)) /\
+  (forall cbrt n A i, cbrt_ok cbrt n A -> binary n A -> symmetric n A -> (i < n)%nat ->
+     match cc_wu_o cbrt n A i with
+     | Some q => q == cc_bu n A i
+     | None => cc_bu n A i == 0 /\ kdeg n A i < 2 /\ ~ diag3 n A i == 0 /\ ~ nodiag n A
+     end) /\
+  (forall n A i, binary n A -> symmetric n A -> (i < n)%nat ->
+     match cc_bd_o n A i with
+     | Some q => q == cc_bu n A i
+     | None => cc_bu n A i == 0 /\ kdeg n A i < 2 /\ ~ diag3 n A i == 0 /\ ~ nodiag n A
+     end).
+Proof. exact (conj cc_wd_o_bin_eq_bd (conj cc_wd_o_sym_eq_wu (conj cc_wu_o_bin_bu cc_bd_o_sym_bu))). Qed.
+
+(* the full statements "on every symmetric 0/1 matrix" are FALSE: node 1 of [[1,1],[1,0]] gets inf from
+   clustering_coef_wu and clustering_coef_bd, 0 from clustering_coef_bu (replayed on the implementation at every check:
+   known finding clustering_coef_wu/clustering_coef_bu:selfloop, clustering_coef_bd/clustering_coef_bu:selfloop) *)
+Theorem C10_cc_wu_bu_selfloop_refuted :
+  exists n A i, binary n A /\ symmetric n A /\ (i < n)%nat /\ cbrt_ok cbrt_exact n A /\
+    ~ oeq (cc_wu_o cbrt_exact n A i) (Some (cc_bu n A i)).
+Proof. exact cc_wu_bu_selfloop_refuted. Qed.
+Theorem C10_cc_bd_bu_selfloop_refuted :
+  exists n A i, binary n A /\ symmetric n A /\ (i < n)%nat /\ ~ oeq (cc_bd_o n A i) (Some (cc_bu n A i)).
+Proof. exact cc_bd_bu_selfloop_refuted. Qed.
+
+(* ---- efficiency.py, local variants: `if numer != 0: ... E[u] = numer / denom` never divides by zero ----
+   (any input matrix, any weights, any diagonal, any distance matrix inside 1/D): a nonzero numer forces denom >= 2,
+   so the total division of [eloc_tail] is never exercised at 0 and the code cannot return inf / nan there.
+   V, k, sa, sw are the expressions of Model/EfficiencyLocal.v (last two conjuncts, by reflexivity). *)
+Import Proofs.ReduceElocDiv.
+Theorem C10_eloc_no_division_by_zero :
+  (forall k s sa e, eloc_tail k s sa e = if Qeq_bool (eloc_numer k s e) 0 then 0 else eloc_numer k s e / eloc_denom k sa) /\
+  (forall n (A : mat Z) u (D : mat len),
+     let G := tab 0%Z n n (bin A) in
+     let V := filter (fun v => znz (G u v) || znz (G v u))%bool (seq 0 n) in
+     let k := length V in
+     let sa := tabv 0 k (fun a => inject_Z (G u (nth a V 0%nat)) + inject_Z (G (nth a V 0%nat) u)) in
+     (u < n)%nat -> ~ eloc_numer k sa (einv k D) == 0 -> 2 <= eloc_denom k sa) /\
+  (forall (cbrt : Q -> Q) n (Gw : mat Q) u (D : mat len),
+     let V := filter (fun v => qnzb (Gw u v) || qnzb (Gw v u))%bool (seq 0 n) in
+     let k := length V in
+     let sw := tabv 0 k (fun a => cbrt (Gw u (nth a V 0%nat)) + cbrt (Gw (nth a V 0%nat) u)) in
+     let sa := tabv 0 k (fun a => nzQ (Gw u (nth a V 0%nat)) + nzQ (Gw (nth a V 0%nat) u)) in
+     ~ eloc_numer k sw (einv k D) == 0 -> 2 <= eloc_denom k sa) /\
+  (forall n (G : mat Z) u,
+     let V := filter (fun v => znz (G u v) || znz (G v u))%bool (seq 0 n) in
+     let k := length V in
+     let sa := tabv 0 k (fun a => inject_Z (G u (nth a V 0%nat)) + inject_Z (G (nth a V 0%nat) u)) in
+     eloc_bin_node n G u = match distance_bin k (subm V G) with
+                           | None => None
+                           | Some D => Some (eloc_tail k sa sa (einv k (fun a b => olen_of_nat (D a b))))
+                           end) /\
+  (forall cbrt n (Gw : mat Q) u,
+     let V := filter (fun v => qnzb (Gw u v) || qnzb (Gw v u))%bool (seq 0 n) in
+     let k := length V in
+     let sw := tabv 0 k (fun a => cbrt (Gw u (nth a V 0%nat)) + cbrt (Gw (nth a V 0%nat) u)) in
+     let sa := tabv 0 k (fun a => nzQ (Gw u (nth a V 0%nat)) + nzQ (Gw (nth a V 0%nat) u)) in
+     eloc_wei_node cbrt n Gw u = match distance_wei k (subm V (tab 0 n n (mmap cbrt (invertQ Gw)))) with
+                                 | None => None
+                                 | Some (D, _) => Some (eloc_tail k sw sa (einv k D))
+                                 end).
+Proof.
+  exact (conj eloc_tail_unfold (conj eloc_bin_no_div0 (conj eloc_wei_no_div0 (conj eloc_bin_node_unfold eloc_wei_node_unfold)))).
+Qed.
+
+(* ---- "the code binarises first" is all that has to be known about the source (harness/c10.py checks exactly this on
+   the AST of /repo at every run: obligations <routine>:binarizes_first): every f(P) = g(binarize(P)) ignores weights ---- *)
+Theorem C10_binarize_first_suffices :
+  (forall (T : Type) (n : nat) (g : mat Z -> T),
+     (forall B B' : mat Z, (forall i j, (i < n)%nat -> (j < n)%nat -> B i j = B' i j) -> g B = g B') ->
+     forall A, (fun P => g (bin P)) (bin A) = (fun P => g (bin P)) A) /\
+  (forall (T : Type) (R : T -> T -> Prop) (n : nat) (g : mat Q -> T),
+     (forall B B' : mat Q, (forall i j, (i < n)%nat -> (j < n)%nat -> B i j == B' i j) -> R (g B) (g B')) ->
+     forall W, R ((fun P => g (binarize P)) (binarize W)) ((fun P => g (binarize P)) W)).
+Proof. exact (conj Proofs.ReduceBinFirst.binarize_first_suffices_Z Proofs.ReduceBinFirst.binarize_first_suffices_Q). Qed.
+
+(* non-vacuity, self-connections: on [[1,1],[1,0]] the four transitivities agree (2), node 0 gets 3/2 from all four
+   clustering routines, node 1 gets inf from wu / bd / wd and 0 from bu *)
+Example C10_selfloop_nonvacuous :
+  binary 2 loop_pendant /\ symmetric 2 loop_pendant /\ ~ nodiag 2 loop_pendant /\
+  map (cc_wu_o cbrt_exact 2 loop_pendant) [0; 1]%nat = [Some (3 # 2); None]%list /\
+  map (fun i => qopt (cc_bd_o 2 loop_pendant i)) [0; 1]%nat = [Some (3 # 2); None]%list /\
+  map (fun i => Qred (cc_bu 2 loop_pendant i)) [0; 1]%nat = [3 # 2; 0]%list /\
+  qopt (trans_wu cbrt_exact 2 loop_pendant) = Some (2 # 1) /\ qopt (trans_bu 2 loop_pendant) = Some (2 # 1) /\
+  qopt (trans_bd 2 loop_pendant) = Some (2 # 1) /\ qopt (trans_wd cbrt_exact 2 loop_pendant) = Some (2 # 1).
+Proof.
+  split; [exact (proj1 loop_pendant_ok)|]. split; [exact (proj2 loop_pendant_ok)|].
+  split; [intros H; specialize (H 0%nat ltac:(lia)); vm_compute in H; discriminate|].
+  vm_compute. repeat split.
+Qed.
+
+(* non-vacuity, betweenness: the directed path 0 -> 1 -> 2: node 1 lies on the one shortest path 0 -> 2 *)
+Example C10_betweenness_nonvacuous :
+  let G := of_rows 0%Z [[0; 1; 0]; [0; 0; 1]; [0; 0; 0]]%Z%list in
+  Model.Between.binary 3 G /\
+  exists BC, Model.Between.betweenness_bin 3 G = Some BC /\ BC 1%nat == 1.
+Proof.
+  cbv zeta. split.
+  { intros a b Ha Hb. do 3 (destruct a as [|a]; [do 3 (destruct b as [|b]; [vm_compute; tauto|]); exfalso; lia|]). exfalso; lia. }
+  destruct (Model.Between.betweenness_bin 3 (of_rows 0%Z [[0; 1; 0]; [0; 0; 1]; [0; 0; 0]]%Z%list)) as [BC|] eqn:E;
+    [|vm_compute in E; discriminate].
+  exists BC. split; [reflexivity|]. vm_compute in E. injection E as <-. vm_compute. reflexivity.
+Qed.
+
 (* ---- non-vacuity ---- *)
 Example C10_nonvacuous :
   let A := of_rows 0 [[0; 1; 1; 0]; [1; 0; 1; 0]; [1; 1; 0; 1]; [0; 0; 1; 0]]%list in
@@ -235,3 +379,11 @@ Print Assumptions C10_jdegree_ignores_weights.
 Print Assumptions C10_edge_nei_overlap_ignores_weights.
 Print Assumptions C10_findwalks_reachdist_ignore_weights.
 Print Assumptions C10_distance_efficiency_bin_ignore_weights.
+Print Assumptions C10_betweenness_wei_bin_eq_bin.
+Print Assumptions C10_edge_betweenness_wei_bin_eq_bin.
+Print Assumptions C10_cc_visible_quotient.
+Print Assumptions C10_cc_any_diagonal.
+Print Assumptions C10_cc_wu_bu_selfloop_refuted.
+Print Assumptions C10_cc_bd_bu_selfloop_refuted.
+Print Assumptions C10_eloc_no_division_by_zero.
+Print Assumptions C10_binarize_first_suffices.
